@@ -22,26 +22,6 @@ pub trait Number: Sized + Copy {
     fn usize(self) -> (r: usize)
         ensures r == self.usize_spec();
 }
-// floor / ceiling on the reals (A-REAL): greatest integer <= x, least integer >= x
-pub uninterp spec fn rfloor(x: real) -> int;
-pub uninterp spec fn rceil(x: real) -> int;
-pub broadcast axiom fn ax_rfloor(x: real)
-    ensures (#[trigger] rfloor(x)) as real <= x, x < (rfloor(x) + 1) as real;
-pub broadcast axiom fn ax_rceil(x: real)
-    ensures (#[trigger] rceil(x)) as real >= x, x > (rceil(x) - 1) as real;
-pub uninterp spec fn f64_ceil(x: f64) -> f64;
-pub uninterp spec fn f64_floor(x: f64) -> f64;
-pub uninterp spec fn f64_usize(x: f64) -> usize;
-pub broadcast axiom fn ax_f64_round(x: f64)
-    requires !nan(x),
-    ensures
-        !nan(#[trigger] f64_ceil(x)) && rv(f64_ceil(x)) == rceil(rv(x)) as real,
-        !nan(#[trigger] f64_floor(x)) && rv(f64_floor(x)) == rfloor(rv(x)) as real;
-// float -> usize cast of a non-negative integral value that fits (saturation / NaN -> 0 are outside this clause)
-pub broadcast axiom fn ax_f64_usize(x: f64)
-    requires !nan(x), rv(x) == rfloor(rv(x)) as real, 0 <= rfloor(rv(x)) <= usize::MAX,
-    ensures #[trigger] f64_usize(x) == rfloor(rv(x));
-pub broadcast group a_round { ax_rfloor, ax_rceil, ax_f64_round, ax_f64_usize }
 impl Number for f64 {
     open spec fn rval(self) -> real { rv(self) }
     open spec fn is_nanv(self) -> bool { nan(self) }
